@@ -37,6 +37,7 @@
 -/
 import RtoscModel.Proofs.PortsRoot
 import RtoscModel.Proofs.PortsBuild
+import RtoscModel.Proofs.PortsObj
 namespace Rtosc.Ports
 open Rtosc Rtosc.Match Rtosc.Ports.Hash
 
@@ -350,6 +351,87 @@ theorem obj_handed_down {mk : List Bytes → Option Matcher} (hmk : MkOK mk) {P 
   rw [e1, e2, e3] at this
   exact this
 
+/-! ### operation histories on one `RtData`
+
+An application sets up its `RtData` once (object, location buffer) and dispatches every incoming
+message with it: "the runtime object handed down by the parent levels" is, for the root table, what
+the dispatch before left in `d.obj`. -/
+
+/-- **obj_restored**: a dispatch leaves in `d.obj` the object it was called with (and does not touch
+    `loc_size`): the next dispatch made with the same `RtData` hands the root table the same object. -/
+theorem obj_restored {mk : List Bytes → Option Matcher} (hmk : MkOK mk) {P : PPorts} {addr tags rest : Bytes}
+    (h : InScope P addr tags rest) (k : Nat) (base : Bool) (d : RtData) (L0 : Bytes)
+    (hd : d.loc = some L0) (hsz : d.locSize ≠ 0) :
+    ∃ log d', dispatch mk P.render (msgBuf addr tags k rest) d base = some (log, d') ∧
+      d'.obj = d.obj ∧ d'.locSize = d.locSize := by
+  obtain ⟨log, d', hdisp, hlog, hd'⟩ := some_pair (dispatch_loc_sem hmk h k base d L0 hd hsz)
+  refine ⟨log, d', hdisp, ?_, ?_⟩
+  · subst hlog hd'
+    exact finLoc_obj _ _ _ _ _ (semLoc_obj _ _ _ _ _ _ _ _ _ _ (rootDataLoc_obj base d))
+  · subst hlog hd'
+    rw [finLoc_locSize, semLoc_locSize, rootDataLoc_locSize]
+
+/-- the same without location buffer (`loc` stays NULL) -/
+theorem obj_restored_noloc (mk : List Bytes → Option Matcher) {P : PPorts} {addr tags rest : Bytes}
+    (h : InScope P addr tags rest) (k : Nat) (base : Bool) (d : RtData) (hd : d.loc = none) :
+    ∃ log d', dispatch mk P.render (msgBuf addr tags k rest) d base = some (log, d') ∧
+      d'.obj = d.obj ∧ d'.loc = none := by
+  obtain ⟨log, d', hdisp, hlog, hd'⟩ := some_pair (dispatch_noLoc mk h.wf k h.msgOK base d hd)
+  refine ⟨log, d', hdisp, ?_, ?_⟩
+  · subst hlog hd'
+    exact finNo_obj _ _ _ _ _ (semNo_obj _ _ _ _ _ _ _ _ _ (rootDataNo_obj base d))
+  · subst hlog hd'
+    rw [finNo_loc, semNo_loc, rootDataNo_loc, hd]
+
+/-- one message of an operation history: address, type string, padding, rest of its buffer, `base_dispatch` -/
+structure HMsg where
+  addr : Bytes
+  tags : Bytes
+  k : Nat
+  rest : Bytes
+  base : Bool
+
+/-- an operation history on one `RtData`: every dispatch starts with what the one before left behind -/
+def runHistory (mk : List Bytes → Option Matcher) (P : Ports) : RtData → List HMsg → Option (List (List Call) × RtData)
+  | d, [] => some ([], d)
+  | d, m :: r =>
+    match dispatch mk P (msgBuf m.addr m.tags m.k m.rest) d m.base with
+    | none => none
+    | some (log, d') =>
+      match runHistory mk P d' r with
+      | none => none
+      | some (logs, d'') => some (log :: logs, d'')
+
+/-- **history_obj_handed_down**: for every history of dispatches on one `RtData` that the caller set up once
+    (root object, location buffer): in every dispatch of the history every callback is handed the object of
+    its table — the root table's callbacks the caller's object — and its own port pointer, and the
+    `RtData` still holds the caller's object afterwards. -/
+theorem history_obj_handed_down {mk : List Bytes → Option Matcher} (hmk : MkOK mk) {P : PPorts} :
+    ∀ (ms : List HMsg), (∀ m ∈ ms, InScope P m.addr m.tags m.rest) →
+    ∀ (d : RtData) (L0 : Bytes), d.loc = some L0 → d.locSize ≠ 0 → d.obj = [] →
+    ∃ logs d', runHistory mk P.render d ms = some (logs, d') ∧ d'.obj = [] ∧
+      ∀ log ∈ logs, ∀ c ∈ log, (∀ q, c.who = .port q → c.dport = some q ∧ c.obj = q.dropLast) ∧
+                               (∀ q, c.who = .dflt q → c.obj = q) := by
+  intro ms
+  induction ms with
+  | nil => intro _ d L0 _ _ hobj; exact ⟨[], d, rfl, hobj, by simp⟩
+  | cons m r ih =>
+    intro hs d L0 hd hsz hobj
+    have hm := hs m (List.mem_cons_self)
+    obtain ⟨log, d1, h1, hptr⟩ := port_pointer_own hmk hm m.k m.base d L0 hd hsz hobj
+    obtain ⟨log', d1', h1', ho, hs1⟩ := obj_restored hmk hm m.k m.base d L0 hd hsz
+    obtain ⟨log'', d1'', h1'', hl⟩ := loc_restored hmk hm m.k m.base d L0 hd hsz
+    rw [h1] at h1' h1''
+    cases h1'; cases h1''
+    obtain ⟨logs, d2, h2, ho2, hptr2⟩ := ih (fun x hx => hs x (List.mem_cons_of_mem _ hx)) d1 _ hl
+      (by rw [hs1]; exact hsz) (by rw [ho, hobj])
+    refine ⟨log :: logs, d2, ?_, ho2, ?_⟩
+    · simp only [runHistory, h1, h2]
+    · intro lg hlg
+      rcases List.mem_cons.mp hlg with rfl | hlg
+      · exact hptr
+      · exact hptr2 lg hlg
+
 /-- **loc_in_bounds**: `dispatch` never compares with `loc_size`; no write leaves a buffer
     that holds the content of `loc` on entry, the address and a terminator. -/
 theorem loc_in_bounds {mk : List Bytes → Option Matcher} (hmk : MkOK mk) {P : PPorts} {addr tags rest : Bytes}
@@ -583,6 +665,36 @@ example :
     (dispatchReal exTree.render (mkMsg [47, 120] [] [0, 0, 0, 0]) { exData with loc := none } true).map
       (fun r => r.1.map (·.who)) = some [.dflt []] := by
   constructor <;> decide +kernel
+
+/-- a hashed root table {`a/` → {`x`}, `b`}: a history of two messages on one `RtData` — "/a/x" recurses
+    through the hashed table, "/b" then is handed the root object again (what the hashed branch's
+    `d.obj = obj` is for) -/
+def hTree : PPorts :=
+  { dflt := false,
+    tab :=
+      .node { segs := [.lit [97]], sub := true, types := none }
+        (.leaf { segs := [.lit [120]], sub := false, types := none } .nil) false <|
+      .leaf { segs := [.lit [98]], sub := false, types := none } .nil }
+
+def hMsgs : List HMsg :=
+  [{ addr := [47, 97, 47, 120], tags := [], k := 3, rest := [0, 0, 0], base := true },
+   { addr := [47, 98], tags := [], k := 1, rest := [0, 0, 0], base := true }]
+
+example : hTree.tab.WF := by decide
+example : (matcherOf realSearch hTree.render.tab.names).map (fun pm => pm.pos.isEmpty) = some false := by decide +kernel
+example : ∀ m ∈ hMsgs, InScope hTree m.addr m.tags m.rest := by
+  intro m hm
+  simp only [hMsgs, List.mem_cons, List.not_mem_nil, or_false] at hm
+  rcases hm with rfl | rfl
+  · exact { wf := by decide, addr_nul := by unfold NulFree; decide, addr_idx := idxBounded_of_check (by decide),
+            tags_nul := by unfold NulFree; decide }
+  · exact { wf := by decide, addr_nul := by unfold NulFree; decide, addr_idx := idxBounded_of_check (by decide),
+            tags_nul := by unfold NulFree; decide }
+example :
+    (runHistory (matcherOf realSearch) hTree.render exData hMsgs).map
+      (fun r => (r.1.map (fun log => log.map (fun c => (c.who, c.obj))), r.2.obj)) =
+      some ([[(.port [0], []), (.port [0, 0], [0])], [(.port [1], [])]], []) := by
+  decide +kernel
 
 /-- `HashOK` is not vacuous: the sub-table {c:i, d/e}… is not hashed (inner '/'), the table
     {a, cab} is, and satisfies it -/
